@@ -141,6 +141,15 @@ class Net(object):
       elif variant == 'stall':
         c.stalled = True
         self.connect_log.append((self.lp.now(), c.addr, c.id, 'stall'))
+        kt = getattr(self, 'kernel_connect_timeout', None)
+        if kt:
+          # the kernel gives up on an unanswered SYN after a while (ETIMEDOUT)
+          def give_up(c=c):
+            if c.state == 'connecting' and not c.client_closed:
+              c.state = 'refused'
+              c.mark_fault()
+              c.wake()
+          self.lp.timer(kt).start(give_up)
       else:
         c.state = 'refused'
         self.connect_log.append((self.lp.now(), c.addr, c.id, 'refused'))
